@@ -618,6 +618,10 @@ def r3b_cast_always_converted(run, F):
             continue
         if x.get("k") == "Call" and (hirq.callee(x) or "").endswith("FromResidual::from_residual"):
             continue      # `?`: an error is propagated
+        if x.get("k") == "Call" and (hirq.callee(x) or "").endswith("::Ok") and x.get("a"):
+            prod = origins.producers(b["hir"], x["a"][0], b.get("params", ()))
+            if prod and all(k[0] == "call" and str(k[1]).endswith("::generate_conversion") for k in prod):
+                continue  # Ok(converted) with converted = generate_conversion(..)?
         bad.append(l)
     run.ob("R3-CAST-ALWAYS-CONVERTED", "generate_primitive_cast", bool(leaves) and not bad, F.where(b, bad[0]) if bad else F.where(b),
            "every value generate_primitive_cast returns comes from generate_conversion (%d result expression(s), %d do not)" % (len(leaves), len(bad)))
